@@ -336,6 +336,8 @@ class ProgGen:
             kinds += ["tstore"]
         if f.storage and f.mapping and f.hashing and bdepth > 0:
             kinds += ["sibling_hash"]
+        if f.storage and f.mapping and f.hashing:
+            kinds += ["cross2d"]
         if f.logs:
             kinds += ["log"]
         if f.calls and self.depth_left > 0 and self.world.callee_addrs(self.depth_left):
@@ -371,6 +373,44 @@ class ProgGen:
             self.expr(d - 1, lbl + "v")
             self.slot_expr(lbl + "l")
             a.op("TSTORE")
+        elif k == "cross2d":
+            # a mapping element m[k] at base b written, an element a[i][j] of the 2-D array at base 10 read (or the other way
+            # round): different slots for every k, i, j - also where a flattened (base, key, key) view of the two would coincide
+            b_ = ch.pick(2, lbl + ".xb")
+
+            def m_slot():
+                if ch.chance(0.5, lbl + ".xk"):
+                    a.push(10)
+                else:
+                    self.input_word(lbl + "xk")
+                    a.push(0xF).op("AND")
+                a.push(0).op("MSTORE")
+                a.push(b_).push(0x20).op("MSTORE")
+                a.push(0x40).push(0).op("SHA3")
+
+            def a_slot():
+                if ch.chance(0.5, lbl + ".xi"):
+                    a.push(b_)
+                else:
+                    self.input_word(lbl + "xi")
+                    a.push(1).op("AND")
+                a.push(10).push(0).op("MSTORE")
+                a.push(0x20).push(0).op("SHA3")
+                a.op("ADD")
+                a.push(0).op("MSTORE")
+                a.push(0x20).push(0).op("SHA3")
+                if not ch.chance(0.5, lbl + ".xj"):
+                    self.input_word(lbl + "xj")
+                    a.push(1).op("AND")
+                    a.op("ADD")
+
+            first, second = (m_slot, a_slot) if ch.chance(0.5, lbl + ".xo") else (a_slot, m_slot)
+            self.expr(1, lbl + "v")
+            first()
+            a.op("SSTORE")
+            second()
+            a.op("SLOAD")
+            a.push(ch.choose([0xC0, 0xE0], lbl + ".mo")).op("MSTORE")
         elif k == "sibling_hash":
             # a slot written and read through a literal that is a keccak image nobody computes on *this* path, while a sibling
             # path (which ends right there) computes the same hash at run time: what one path learns about hashes must not
